@@ -483,6 +483,11 @@ class EIG(BaseRoutine):
             logger.error('No dynamic model. Eig analysis will not continue.')
             status = False
 
+        else:
+            # parameters or variables may have changed since the Jacobians were last built
+            system.TDS.fg_update(system.exist.pflow_tds)
+            system.j_update(system.exist.pflow_tds)
+
         return status
 
     @check_conn_before_init
